@@ -265,3 +265,76 @@ Proof.
 Qed.
 Theorem normalize_length : forall dimmax ops, length (normalize dimmax ops) = length ops.
 Proof. intros. apply normalize_aux_length. Qed.
+
+(* ------------------------------------------------------------------ what the relation sweep computes, step by step *)
+Require Import C07_Gauss.
+
+Lemma span_snoc : forall R w v, span (R ++ [w]) v <-> span R v \/ span R (vxor v w).
+Proof.
+  intros R w v. rewrite <- span_cons_iff. split; apply span_sub; intros x Hx; apply span_in.
+  - apply in_app_or in Hx. destruct Hx as [Hx|[Hx|[]]]; [right; assumption|left; assumption].
+  - apply in_or_app. destruct Hx as [Hx|Hx]; [right; left; assumption|left; assumption].
+Qed.
+
+(* removal of a k-cell u: exactly the pairs of the relation whose y-part does not use u survive *)
+Theorem step_rel_removal : forall s k R u v, dim_of s u = k ->
+  (span (step_rel s k R (NRem u)) v <-> span R v /\ get v (length s + u)%nat = false).
+Proof.
+  intros s k R u v Hd. cbn [step_rel]. rewrite Hd, Z.eqb_refl. apply restrict_span.
+Qed.
+
+(* insertion of a (k+1)-cell with boundary bd: the pair (0, bd) is added to the relation *)
+Theorem step_rel_insertion : forall s k R bd v,
+  (span (step_rel s k R (NIns (k + 1) bd)) v <-> span R v \/ span R (vxor v (of_idx (shift (length s) bd)))).
+Proof.
+  intros s k R bd v. cbn [step_rel]. rewrite Z.eqb_refl. apply span_snoc.
+Qed.
+
+(* every other arrow (identity, cells of other dimensions) leaves the relation alone *)
+Theorem step_rel_other : forall s k R o,
+  match o with NIns d _ => d <> k + 1 | NRem u => dim_of s u <> k | NId => True end -> step_rel s k R o = R.
+Proof.
+  intros s k R o H. destruct o as [d bd|u|]; cbn [step_rel]; [| |reflexivity].
+  - destruct (d =? k + 1) eqn:E; [apply Z.eqb_eq in E; contradiction|reflexivity].
+  - destruct (dim_of s u =? k) eqn:E; [apply Z.eqb_eq in E; contradiction|reflexivity].
+Qed.
+
+(* the cycles of the start: the combinations of the generators (c, c, bd c) whose boundary part vanishes *)
+Lemma fold_restrict_span : forall cs M v,
+  span (fold_left (fun M c => restrict c M) cs M) v <-> span M v /\ forall c, In c cs -> get v c = false.
+Proof.
+  induction cs as [|c cs IH]; intros M v; cbn [fold_left].
+  - split; [intros H; split; [assumption|intros c []]|intros [H _]; assumption].
+  - rewrite IH, restrict_span. split.
+    + intros [[H1 H2] H3]. split; [assumption|]. intros c' [E|Hin]; [subst; assumption|apply H3; assumption].
+    + intros [H1 H2]. split; [split; [assumption|apply H2; left; reflexivity]|]. intros c' Hin. apply H2. right. assumption.
+Qed.
+
+Definition init_gens (s : list nop) (k : Z) (b : nat) : list vec :=
+  map (fun c => of_idx (c :: (length s + c)%nat :: shift (2 * length s) (bd_of s c))) (cells_of_dim s k (present s b)).
+Definition init_bnds (s : list nop) (k : Z) (b : nat) : list vec :=
+  map (fun t => of_idx (bd_of s t)) (cells_of_dim s (k + 1) (present s b)).
+
+(* the start of the sweep: (combinations of the (c, c, bd c), c a k-cell of K_b, with zero boundary part) + (bd t, 0), t a (k+1)-cell of K_b *)
+Theorem init_rel_spec : forall s k b v,
+  span (init_rel s k b) v <->
+  exists z, span (init_gens s k b) z /\ (forall u, (u < length s)%nat -> get z (2 * length s + u)%nat = false) /\
+            span (init_bnds s k b) (vxor v z).
+Proof.
+  intros s k b v. unfold init_rel. cbv zeta. fold (init_gens s k b). fold (init_bnds s k b).
+  set (cyc := fold_left _ _ _).
+  assert (Hc : forall z, span cyc z <-> span (init_gens s k b) z /\ forall u, (u < length s)%nat -> get z (2 * length s + u)%nat = false).
+  { intros z. unfold cyc. rewrite fold_restrict_span. split; intros [H1 H2]; (split; [assumption|]).
+    - intros u Hu. apply H2. unfold shift. apply in_map_iff. exists u. split; [reflexivity|]. apply in_seq. lia.
+    - intros c Hin. unfold shift in Hin. apply in_map_iff in Hin. destruct Hin as [u [E Hu]]. subst c. apply H2. apply in_seq in Hu. lia. }
+  split.
+  - intros H. apply span_app_inv in H. destruct H as [a [Ha Hb]]. exists a. apply Hc in Ha. destruct Ha as [Ha1 Ha2].
+    split; [assumption|]. split; assumption.
+  - intros [z [Hz1 [Hz2 Hz3]]].
+    assert (Hz : span cyc z) by (apply Hc; split; assumption).
+    apply span_veq with (v := vxor z (vxor v z)).
+    + intros i. rewrite !get_vxor. destruct (get z i), (get v i); reflexivity.
+    + apply span_xor.
+      * revert Hz. apply span_incl. intros x Hx. apply in_or_app. left. assumption.
+      * revert Hz3. apply span_incl. intros x Hx. apply in_or_app. right. assumption.
+Qed.
